@@ -332,6 +332,11 @@ theorem componentDecomposition_fst :
     ((componentDecomposition n x).run c).1 = (List.range n).map (fun j => c.wit.size + 2 * j) := by
   rw [componentDecomposition_run, dbits_eq_map]
 
+theorem componentDecomposition_getD (j : Nat) (hj : j < n) :
+    ((componentDecomposition n x).run c).1.getD j 0 = c.wit.size + 2 * j := by
+  rw [componentDecomposition_fst]
+  simp [List.getD_eq_getElem?_getD, hj]
+
 theorem componentDecomposition_snd : ((componentDecomposition n x).run c).2 = dcomp n x c := by
   rw [componentDecomposition_run]
 
